@@ -122,6 +122,19 @@ impl Drop for EmitOnDrop {
 }
 
 
+/// plan key `stream_echo` of an attach: the queue's output stream itself reports through the global it serves (a
+/// writer that counts its bytes as a metric, say) - on the queue's *writer thread*, for its first two entries
+/// (ids 7 000 000 + ...: no operation of the plan owns them, so the routing oracle leaves them alone).
+fn stream_echo(s: &RecStream, op: &Value, g: u64, dest: u64) {
+    if jb(op, "stream_echo", false) {
+        s.on_entry_next.set(move |n: u64| {
+            if n < 2 {
+                let _ = with_global!(g, G => G::try_append(IdEntry(7_000_000 + 10 * dest + n)));
+            }
+        });
+    }
+}
+
 struct ThreadState {
     tl_guard: [Option<ThreadLocalTestSinkGuard>; 2],
     rt_enter: Option<(u64, tokio::runtime::EnterGuard<'static>)>,
@@ -154,10 +167,12 @@ fn g_ops(plan: &Value, tno: u64, ops: &[Value], log: &GLog, hist: &History, rts:
                         // the convenience form: attach_to_stream builds the queue itself
                         let (mut s, _ctl) = RecStream::new(dest as u32, hist.clone(), -1);
                         s.next_cost_ns = 1_000;
+                        stream_echo(&s, op, g, dest);
                         with_global!(g, G => G::attach_to_stream(s))
                     } else if queue {
                         let (mut s, _ctl) = RecStream::new(dest as u32, hist.clone(), -1);
                         s.next_cost_ns = 1_000;
+                        stream_echo(&s, op, g, dest);
                         let (sink, handle) = BackgroundQueueBuilder::new()
                             .capacity(256)
                             .thread_name(format!("gq{dest}"))
@@ -167,11 +182,12 @@ fn g_ops(plan: &Value, tno: u64, ops: &[Value], log: &GLog, hist: &History, rts:
                         with_global!(g, G => G::attach((sink, handle)))
                     } else {
                         let sink = BoxEntrySink::new(Dest { no: dest, log: log.clone(), strict: jb(op, "strict", false), atomic: false, slow_drop: false });
-                        // An attach that is going to be refused (thread 0 is the only attacher, so the harness knows)
-                        // may bring a handle that emits a last entry through this very global when it is dropped.
-                        // (An *accepted* handle of that kind is not legal: detaching drops it under the global's lock.)
+                        // The handle that comes with the sink may emit a last entry through this very global when it is
+                        // dropped: at once when the attach is refused, at the detach when it was accepted (plan key
+                        // `emitting_handle_accepted`; until fix: commit of 12.3 #7 the detach dropped it under the
+                        // global's write lock).
                         let refused = ctl.lock().unwrap().attach[gi].is_some();
-                        if refused && jb(op, "emitting_handle", false) {
+                        if jb(op, "emitting_handle", false) && (refused || jb(op, "emitting_handle_accepted", false)) {
                             with_global!(g, G => G::attach((sink, EmitOnDrop { g, id: 9_000_001 + 5 * dest })))
                         } else {
                             with_global!(g, G => G::attach((sink, ())))
@@ -714,6 +730,12 @@ pub fn gen_c17(rng: &mut Rng) -> Value {
                 9 | 10 => {
                     next_dest += 1;
                     ops.push(json!({"op":"attach","g":g,"dest":next_dest,"queue": rng.chance(0.4),"stream": rng.chance(0.5),"strict": rng.chance(0.2),"emitting_handle": rng.chance(0.5)}));
+                    // (decided from what is already drawn, so that the other draws of the plan stay where they were)
+                    if let Some(last) = ops.last_mut() {
+                        let h = mix(next_dest, next_id);
+                        last["emitting_handle_accepted"] = json!(h % 3 == 0);
+                        last["stream_echo"] = json!(h % 5 < 2);
+                    }
                 }
                 11 => ops.push(json!({"op":"detach","g":g,"in_panic": rng.chance(0.2)})),
                 12 => {
@@ -791,7 +813,9 @@ impl Scenario for GlobalRouting {
             r.fault("handle_forgotten", 1);
         }
         r.states = st.into_iter().collect();
-        if !matches!(failure, Some(detsim::Failure::StepLimit { .. })) {
+        // (a run that stopped half-way - step budget, deadlock - is not judged by the history oracle: the deadlock
+        // itself is the finding)
+        if !matches!(failure, Some(detsim::Failure::StepLimit { .. }) | Some(detsim::Failure::Deadlock { .. })) {
             r.violation = check_c17(plan, &h, &hs);
         }
         r.sample = Some(json!({"threads": plan.get("threads"), "ops": ops.iter().take(40).map(|o| format!("[{}..{}] t{} {} {} -> {}", o.inv, o.ret, o.tno, o.name, o.spec, o.outcome)).collect::<Vec<_>>()}));
@@ -850,6 +874,9 @@ impl Scenario for GlobalDetach {
             if t == 0 {
                 for round in 0..(1 + rng.below(3)) {
                     ops.push(json!({"op":"attach","g":0,"dest":20 + round,"queue":true,"stream": rng.chance(0.3)}));
+                    if let Some(last) = ops.last_mut() {
+                        last["stream_echo"] = json!(mix(next_id, 20 + round) % 3 == 0);
+                    }
                     if rng.chance(0.3) {
                         // a second attach while attached: documented to panic, and the first sink
                         // must still be detachable (drained, flushed, closed) afterwards
